@@ -444,15 +444,18 @@ def check_sort(res, unit, fn, file, cmps):
     nname = npar.get("n")
     top = [x for x in cir.kids(cir.body(fn)) if x is not None]
     # the shape-independent verdicts first: a definite wrong output is the report, whatever the loops look like
-    if not sort_semantics(res, unit, fn, file, cmps, arr, buf, nname):
-        return
-    if not merge_region_by_role(res, unit, fn, file, cmps, arr, buf, nname):
-        return
+    sem = sort_semantics(res, unit, fn, file, cmps, arr, buf, nname)
     try:
+        sem = merge_region_by_role(res, unit, fn, file, cmps, arr, buf, nname) and sem
+    except AnalysisError:
+        if sem:
+            raise
+    try:
+        # the layout-bound clauses localise a defect and decide the bounds for every n
         _sort_shape(res, unit, fn, file, cmps, decls, arr, buf, npar, elem_t, nname, top)
     except AnalysisError as e:
-        # the layout-bound clauses (which localise a defect and decide the bounds for every n) could not be evaluated on this
-        # layout; the semantic rules above have decided what they decide
+        # not evaluable on this layout; the semantic rules above have decided what they decide (a definite wrong output
+        # reported by them stays the verdict)
         res.extra.setdefault("shape_clauses_skipped", []).append(f"{name}: {e}")
 
 
@@ -1021,15 +1024,17 @@ def check_partial(res, unit, fn, file, cmps):
             partial_semantics(Result_probe(), unit, fn, file, cmps, arr, ints[1].get("n"), ints[0].get("n")):
         sem_pre = True
     else:
-        partial_semantics(res, unit, fn, file, cmps, arr, ints[0].get("n"), ints[1].get("n"))
-        return
+        sem_pre = False
     try:
         _partial_shape(res, unit, fn, file, cmps, arr, buf, ints, top)
     except AnalysisError as e:
         res.extra.setdefault("shape_clauses_skipped", []).append(f"{name}: {e}")
         # the verdict of the small-size evaluation stands for this layout
-        partial_semantics(res, unit, fn, file, cmps, arr, ints[0].get("n"), ints[1].get("n")) or \
-            partial_semantics(res, unit, fn, file, cmps, arr, ints[1].get("n"), ints[0].get("n"))
+        if sem_pre:
+            partial_semantics(res, unit, fn, file, cmps, arr, ints[0].get("n"), ints[1].get("n")) or \
+                partial_semantics(res, unit, fn, file, cmps, arr, ints[1].get("n"), ints[0].get("n"))
+        else:
+            partial_semantics(res, unit, fn, file, cmps, arr, ints[0].get("n"), ints[1].get("n"))
 
 
 def _partial_shape(res, unit, fn, file, cmps, arr, buf, ints, top):
@@ -1223,8 +1228,7 @@ def run(res, tier):
         isf = finite.is_float_type(finite.base_type(ptr.get("dt") or ptr.get("t")).rstrip("*").strip()) or "mjtNum" in (ptr.get("t") or "")
         npar = [p for p in cir.params(fn) if finite.base_type(p.get("t")) == "int"][0].get("n")
         # the shape-independent verdict first: a definite wrong output is the report, whatever the loops look like
-        if not helper_semantics(res, um, um.funcs[h], MISC, ptr.get("n"), npar, isf):
-            continue
+        helper_semantics(res, um, um.funcs[h], MISC, ptr.get("n"), npar, isf)
         # canonical view: leading `if (..) break;` guards are loop-condition conjuncts
         fn = norm.fold_break_guards(norm.nest(fn))
         ins = insertion_loops(fn, um)
